@@ -4,10 +4,13 @@ open Zc
 
 def b01 (b : Bool) : String := if b then "1" else "0"
 
-/-- `c20r <recA> <recB>` → `eq hasheq kindeq speceq` -/
+/-- `c20r <recA> <recB>` → `eq hasheq kindeq speceq`; the class field of each record is the **raw constructor
+argument** (flush bit included), `normCtor` is `DNSEntry._set_class` -/
 def c20r (toks : List String) : String :=
   match (do let a ← Rec.parse; let b ← Rec.parse; Tok.done; pure (a, b) : Tok (Rec × Rec)).run toks with
-  | some ((a, b), _) =>
+  | some ((a0, b0), _) =>
+    let a := a0.normCtor
+    let b := b0.normCtor
     let eq := a.beq asciiLower b
     let heq := decide (a.hashKey asciiLower = b.hashKey asciiLower)
     let keq := decide (a.rdata.kind = b.rdata.kind)
@@ -18,8 +21,21 @@ def c20r (toks : List String) : String :=
 /-- `c20q <qA> <qB>` → `eq hasheq speceq` -/
 def c20q (toks : List String) : String :=
   match (do let a ← Question.parse; let b ← Question.parse; Tok.done; pure (a, b) : Tok (Question × Question)).run toks with
-  | some ((a, b), _) =>
+  | some ((a0, b0), _) =>
+    let a := a0.normCtor
+    let b := b0.normCtor
     s!"{b01 (a.beq asciiLower b)} {b01 (decide (a.hashKey asciiLower = b.hashKey asciiLower))} {b01 (decide (a.specIdent asciiLower = b.specIdent asciiLower))}"
+  | none => "bad-op"
+
+/-- `c20s <k> <rec>*k <probe>` → `DNSRRSet(recs).suppresses(probe)` (raw classes as in `c20r`) -/
+def c20s (toks : List String) : String :=
+  match (do
+      let k ← Tok.nat
+      let rs ← Tok.many Rec.parse k
+      let r ← Rec.parse
+      Tok.done
+      pure (rs, r) : Tok (List Rec × Rec)).run toks with
+  | some ((rs, r), _) => b01 (rrsetSuppresses asciiLower (rs.map Rec.normCtor) r.normCtor)
   | none => "bad-op"
 
 namespace C20
@@ -27,6 +43,7 @@ def dispatch (cmd : String) (rest : List String) : Option String :=
   match cmd with
   | "c20r" => some (c20r rest)
   | "c20q" => some (c20q rest)
+  | "c20s" => some (c20s rest)
   | _ => none
 end C20
 
